@@ -24,8 +24,8 @@ CHECKS = {
   "DESIGN.md §3 C02"),
  "C03": ("exploration",
   "enumeration of 16-bit operand pairs through CPU.Step against definitional oracle functions",
-  "All 65536 first operands x a boundary lattice of second operands x carry/flag patterns for each of the 20 ADD/ADC/SBC encodings, doubling forms and INC/DEC ss/IX/IY complete (65536 values x 256 F); thorough adds all 2^32 pairs x 4 flag patterns for one encoding of each operation. Oracle from definitions (17-bit sum, H on the low 12 bits, signed-range overflow, Z on the whole word); whole States compared.",
-  "Trusted: ref.Add16/Adc16/Sbc16 (validated by the hardware CRCs). Non-representative ss encodings are sampled on a lattice, not all 2^32 pairs.",
+  "All 65536 first operands x a boundary lattice of second operands x carry/flag patterns for each of the 20 ADD/ADC/SBC encodings, doubling forms and INC/DEC ss/IX/IY complete (65536 values x 256 F); thorough adds all 2^32 pairs x 4 flag patterns for one encoding of each operation and all 2^32 pairs x 2 flag patterns for every other ss encoding (so every one of the 15 non-doubling encodings sees every operand pair). Oracle from definitions (17-bit sum, H on the low 12 bits, signed-range overflow, Z on the whole word); whole States compared.",
+  "Trusted: ref.Add16/Adc16/Sbc16 (validated by the hardware CRCs). In the quick tier second operands are sampled on a lattice; not every incoming F is combined with every pair.",
   "DESIGN.md §3 C03"),
  "C11": ("exploration",
   "metamorphic twin monitor (DD form from S vs FD form from swap(S)), no model",
